@@ -263,4 +263,100 @@ example : (run ⟨⟨[], [], fun _ => false⟩, str "ODFPY/x"⟩ [.xml] sample).
 
 example : (run ⟨⟨[], [], fun _ => false⟩, str "ODFPY/x"⟩ [.contentxml, .stylesxml, .settingsxml] sample).metaEl = sample.metaEl := by rfl
 
+/-! ### histories that contain package calls which raised part-way (`Render.Call`) -/
+
+theorem stepC_cases (c : Render.Cfg) (k : Call) (d : Doc) : stepC c k d = d ∨ stepC c k d = normGen c.tv d := by
+  cases k with
+  | ok op => exact step_cases c op d
+  | failedEarly => exact Or.inl rfl
+  | failedLate => exact Or.inr rfl
+
+theorem stepC_normGen (c : Render.Cfg) (k : Call) (d : Doc) : stepC c k (normGen c.tv d) = normGen c.tv d := by
+  cases k with
+  | ok op => simp only [stepC]; unfold step; split <;> simp [normGen_idempotent]
+  | failedEarly => rfl
+  | failedLate => simp [stepC, normGen_idempotent]
+
+theorem runC_normGen (c : Render.Cfg) (ks : List Call) (d : Doc) : runC c ks (normGen c.tv d) = normGen c.tv d := by
+  induction ks with
+  | nil => rfl
+  | cons k r ih => simp only [runC, stepC_normGen, ih]
+
+/-- **C12 (failed calls are calls too, purity)**: after ANY history of output calls, some of which raised
+    part-way, the document is the document before or the document before with its generator normalised. -/
+theorem failed_calls_pure (c : Render.Cfg) (ks : List Call) (d : Doc) :
+    runC c ks d = d ∨ runC c ks d = normGen c.tv d := by
+  induction ks generalizing d with
+  | nil => exact Or.inl rfl
+  | cons k r ih =>
+    simp only [runC]
+    rcases stepC_cases c k d with h | h
+    · rw [h]; exact ih d
+    · rw [h, runC_normGen]; exact Or.inr rfl
+
+theorem outsC_length (c : Render.Cfg) (ks : List Call) (d : Doc) : (outsC c ks d).length = ks.length := by
+  induction ks generalizing d with
+  | nil => rfl
+  | cons k r ih => simp [outsC, ih]
+
+theorem outC_normGen (c : Render.Cfg) (k : Call) (d : Doc) : outC c k (normGen c.tv d) = outC c k d := by
+  cases k <;> simp [outC, out_normGen]
+
+theorem outsC_normGen (c : Render.Cfg) (ks : List Call) (d : Doc) : outsC c ks (normGen c.tv d) = outsC c ks d := by
+  induction ks generalizing d with
+  | nil => rfl
+  | cons k r ih =>
+    simp only [outsC, outC_normGen, stepC_normGen]
+    congr 1
+    rcases stepC_cases c k d with h | h
+    · rw [h, ih]
+    · rw [h]
+
+/-- **C12 (failed calls are calls too, history independence)**: in a history in which some package calls
+    raised part-way, the i-th call returns nothing (it raised) or exactly what the same call returns on the
+    untouched document - whatever failed before it. -/
+theorem failed_calls_history_independent (c : Render.Cfg) (ks : List Call) (d : Doc) (i : Nat) (hi : i < ks.length) :
+    (outsC c ks d)[i]'(by rw [outsC_length]; exact hi) = outC c ks[i] d := by
+  induction ks generalizing d i with
+  | nil => cases hi
+  | cons k r ih =>
+    cases i with
+    | zero => simp [outsC]
+    | succ i =>
+      simp only [outsC, List.getElem_cons_succ]
+      simp only [List.length_cons, Nat.add_lt_add_iff_right] at hi
+      rcases stepC_cases c k d with h | h
+      · simp only [h]; exact ih d i hi
+      · simp only [h, outsC_normGen]; exact ih d i hi
+
+/-- **C12 (failed calls leave no trace in later output)**: the outputs of the calls that got through are the
+    outputs of the same history with the failed calls left out. -/
+theorem failed_calls_invisible (c : Render.Cfg) (ks : List Call) (d : Doc) :
+    (outsC c ks d).filterMap id = outs c (ks.filterMap Call.op?) d := by
+  induction ks generalizing d with
+  | nil => rfl
+  | cons k r ih =>
+    cases k with
+    | ok op => simp [outsC, outC, stepC, Call.op?, outs, ih]
+    | failedEarly =>
+      have h : (Call.failedEarly :: r).filterMap Call.op? = r.filterMap Call.op? := rfl
+      simp [outsC, outC, stepC, ih, h]
+    | failedLate =>
+      have h : (Call.failedLate :: r).filterMap Call.op? = r.filterMap Call.op? := rfl
+      simp [outsC, outC, stepC, ih, h, outs_normGen]
+
+/-- **C12 (repeatability with failed calls in between)**: two calls of the same kind that got through give
+    identical infosets, whatever calls failed before, between or after them. -/
+theorem repeatable_across_failed_calls (c : Render.Cfg) (ks : List Call) (d : Doc) (i j : Nat)
+    (hi : i < ks.length) (hj : j < ks.length) (hk : ks[i] = ks[j]) :
+    (outsC c ks d)[i]'(by rw [outsC_length]; exact hi) = (outsC c ks d)[j]'(by rw [outsC_length]; exact hj) := by
+  rw [failed_calls_history_independent c ks d i hi, failed_calls_history_independent c ks d j hj, hk]
+
+example : outsC ⟨⟨[], [], fun _ => false⟩, str "ODFPY/x"⟩ [.ok .metaxml, .failedLate, .failedEarly, .ok .metaxml] sample
+    = [some (out ⟨⟨[], [], fun _ => false⟩, str "ODFPY/x"⟩ .metaxml sample), none, none,
+       some (out ⟨⟨[], [], fun _ => false⟩, str "ODFPY/x"⟩ .metaxml sample)] := by
+  have h := out_normGen ⟨⟨[], [], fun _ => false⟩, str "ODFPY/x"⟩ .metaxml
+  simp only [outsC, outC, stepC, step, Op.normalises, if_true] at h ⊢
+  simp only [h]
+
 end OdfModel.Props.C12
